@@ -26,3 +26,7 @@ Print Assumptions C33_unfixed_refuted.
 Theorem C33_oracle_decides : forall obs, exclusive_trace_b obs = true <-> exclusive_trace obs.
 Proof. exact exclusive_trace_b_spec. Qed.
 Print Assumptions C33_oracle_decides.
+
+Theorem C33_close_oracle_decides : forall ops released, close_held_b released ops = true <-> close_held released ops.
+Proof. exact close_held_b_spec. Qed.
+Print Assumptions C33_close_oracle_decides.
